@@ -8,7 +8,7 @@ use crate::mqtt_client::outbound::write_packet;
 use crate::packets::Connect;
 use crate::properties::Properties;
 use crate::wire::Utf8String;
-use crate::{Error, PeerError, Property, QoS, debug, info, warn};
+use crate::{Error, PeerError, Property, QoS, ResourceError, debug, info, warn};
 
 use super::{Connection, Io, Session, drive::fill_packet_reader};
 
@@ -82,20 +82,24 @@ impl<'buf> Session<'buf> {
         );
 
         {
+            let connect = Connect {
+                keepalive,
+                properties: Properties::from_slice(&properties),
+                client_id: Utf8String(client_id.as_str()),
+                auth,
+                will,
+                clean_start,
+            };
             let buffer = self.data.outbound.scratch_space();
-            write_packet(
-                buffer,
-                connection,
-                &Connect {
-                    keepalive,
-                    properties: Properties::from_slice(&properties),
-                    client_id: Utf8String(client_id.as_str()),
-                    auth,
-                    will,
-                    clean_start,
-                },
-            )
-            .await?;
+            match write_packet(buffer, connection, &connect).await {
+                // Retained packets awaiting replay may leave too little of the transmit arena;
+                // the receive buffer is idle until the CONNACK arrives. Encoding fails before
+                // anything is written, so the retry starts from a clean transport.
+                Err(Error::Resource(ResourceError::BufferTooSmall)) => {
+                    write_packet(&mut self.packet_reader.buffer[..], connection, &connect).await?
+                }
+                result => result?,
+            }
         }
 
         self.runtime.next_ping = None;
